@@ -215,3 +215,7 @@ func EnumPad(name string, alts ...string) string {
 	s, _ := v.(string)
 	return s + strings.Repeat(" ", m-len(s))
 }
+
+// Pin returns x; symbolically it forks over the feasible values of x so that each path continues with a concrete
+// value (use only when few values are feasible).
+func Pin(x int) int { return x }
